@@ -65,6 +65,17 @@ def gen_tree(rng):
             files[u.path] = (False, u, u.text)
         else:
             files["docs/notes%d.txt" % k] = (False, None, "class Fake {}\n")
+    # a FILE whose name contains "testData" (LatestData.java) next to the sources: skipped itself by the path rule,
+    # its later siblings must still be analysed; and sources under a dot-directory, which are ordinary sources
+    if rng.random() < 0.25:
+        pk = rng.choice([q for q, (ig, u, _) in files.items() if u is not None]).rsplit("/", 1)
+        u = J.rand_unit(rng, 0, [(rng.choice(J.PKG_POOL), "LatestData")])
+        u.path = (pk[0] + "/" if len(pk) == 2 else "") + "LatestData.java"
+        if u.path not in files: files[u.path] = (False, u, u.text)
+    if rng.random() < 0.25:
+        u = J.rand_unit(rng, 0, [(rng.choice(J.PKG_POOL), "Hidden%d" % extra)])
+        u.path = rng.choice([".config", ".mvn/wrapper", "src/.internal"]) + "/Hidden%d.java" % extra
+        files[u.path] = (False, u, u.text)
     gitignore = "generated/\n" if any(ig for ig, _, _ in files.values()) or rng.random() < 0.3 else ""
     # a pattern that matches a FILE (not a directory): its siblings listed after it must still be analysed
     cands = [p for p, (ig, u, _) in files.items() if u is not None and not ig]
